@@ -488,7 +488,7 @@ pub fn run(rep: &Report) {
         }
         Ok(())
     });
-    let cases = rep.tier.scale(400_000, 40);
+    let cases = rep.tier.scale(1_600_000, 12);
     run_family(
         rep,
         "random_pairs",
